@@ -11,6 +11,24 @@ WHAT = {"P07-begin-not-refused": "begin for an open token / at the maximum was n
         "P07-open-token-refused": "commit/cancel for an open token was refused as unknown"}
 
 
+def similar_tokens():
+    """Tokens that differ only in case, padding, a prefix, or not at all but for one byte: each is its own key of the map."""
+    pairs = [([97], [65]), ([97], [97, 32]), ([97], [32, 97]), ([97, 98], [97]), ([97], []), ([97, 98], [98, 97]), ([132], [142]), ([48], [48, 48]),
+             ([97, 0], [97]), ([255], [254])]
+    ok = {"o": "ok", "status": {"amount": [1]}}
+    out = []
+    for a, b in pairs:
+        for first, second in ((a, b), (b, a)):
+            for closing in ("commit", "cancel"):
+                # begin(first); closing(second) must be refused; begin(second) is a new token; both close on their own receipts
+                calls = [{"op": "begin", "token": first, "amount": []}, {"op": closing, "token": second, "amount": [1]},
+                         {"op": "begin", "token": second, "amount": []}, {"op": "begin", "token": first, "amount": []},
+                         {"op": closing, "token": first, "amount": [1]}, {"op": closing, "token": second, "amount": [1]}]
+                out.append({"config": {"max": 2}, "term": {"next_receipt": 7}, "calls": calls, "plan": {"exchanges": [], "default": ok}})
+                out.append({"config": {"max": 1}, "term": {"next_receipt": 7}, "calls": calls, "plan": {"exchanges": [], "default": ok}})
+    return out
+
+
 def run(chk):
     wd = vlib.workdir("C07")
     thorough = chk.tier == "thorough"
@@ -20,13 +38,15 @@ def run(chk):
         cl.model_check(chk, 3, big=True)
     sc = cl.model_scenarios(chk, 2) + cl.model_scenarios(chk, 3, keep_every=1 if thorough else 24, offset=chk.seed)
     walks = cl.random_walks(chk.seed, 2000 if thorough else 100, 40)
-    out = cl.run_scenarios(binary, sc + walks, wd, "c07")
+    sim = similar_tokens()
+    out = cl.run_scenarios(binary, sc + sim + walks, wd, "c07")
     outs, ifl, pfl = cl.validate(chk, out, wd, "c07", shard=1500 if thorough else 400)
     cl.report(chk, outs, ifl, pfl, {"P07", "abnormal"}, WHAT)
     chk.cov["traces_validated_against_impl"] = len(outs)
     chk.cov["evaluations"] = len(outs)
     chk.cov["distinct_nontrivial"] = len(sc)
     chk.cov["random_walks"] = len(walks)
+    chk.cov["similar_token_histories"] = len(sim)
     chk.cov["rule"] = ("spec -> impl: every history of 2 calls and %s history of 3 calls of MC_Client (begin/commit/cancel over 2 tokens, max 0..2, "
                        "every terminal outcome, terminal with and without a dangling pre-authorisation) replayed against the real client through the "
                        "simulated terminal; impl -> spec: seeded random walks of up to 40 calls over up to 8 tokens, max 0..3, random outcomes. Every "
